@@ -268,6 +268,78 @@ def job_integrate(T, Fc, asc):
     return recs
 
 
+def job_integrate_normalized(T, Fc, axis, mode):
+    """normalize=True: the integrated vector v is returned as (v - mean(v)) / std(v), identically as a plain array,
+    as a wrapper object (as_frame=True) and through spectrum()/timeseries()"""
+    recs = []
+    tag = f"C17:integrate-normalized:{(T, Fc, axis, mode)}"
+    df, dt, fch1, pre = geom_syms()
+    D = sym_data(T, Fc)
+
+    def run():
+        fr = make_frame(T, Fc, True, df, dt, fch1, t_start=Sym(z3.Real('t_start')), source_name='SRC_N')
+        fr.data = D.copy()
+        arr = IG.integrate(fr, axis=axis, mode=mode, normalize=True)
+        obj = IG.integrate(fr, axis=axis, mode=mode, normalize=True, as_frame=True)
+        wrap = (IG.timeseries if axis in ('f', 1) else IG.spectrum)(fr, mode=mode, normalize=True)
+        return arr, obj, wrap
+    with patches():
+        leaf = core.run_single(run, pre)
+    arr, obj, wrap = leaf.value
+    n = T if axis in ('f', 1) else Fc
+    Dt = [[lift(D[i, j]) for j in range(Fc)] for i in range(T)]
+    if axis in ('f', 1):
+        v = [sum(Dt[i][1:], Dt[i][0]) for i in range(T)]
+        v = [x / Fc for x in v] if mode == 'mean' else v
+    else:
+        v = [sum((Dt[i][j] for i in range(1, T)), Dt[0][j]) for j in range(Fc)]
+        v = [x / T for x in v] if mode == 'mean' else v
+    m = sum(v[1:], v[0]) / n
+    var = sum(((x - m) * (x - m) for x in v[1:]), (v[0] - m) * (v[0] - m)) / n
+    sref = z3.Real('std_ref')
+    base = pre + leaf.side + [sref >= 0, sref * sref == var, var > 0]
+    pl = dict(fn='integrate_normalized', T=T, Fc=Fc, axis=str(axis), mode=mode)
+    shapes_ok = np.shape(arr) == (n,) and np.size(obj.data) == n and np.size(wrap.data) == n
+    if not shapes_ok:
+        recs.append(q(tag + ':shape', 'sat', detail=f"{np.shape(arr)} {np.shape(obj.data)} {np.shape(wrap.data)}"))
+        recs.append(cex('C17:integrate-normalized:shape', 'normalised integration returns another shape', pl, name=tag + ':shape'))
+        return recs
+    ov, wv = list(np.asarray(obj.data).flat), list(np.asarray(wrap.data).flat)
+    # the same numbers in all three forms
+    dis = [lift(a) != lift(b) for a, b in zip(arr, ov)] + [lift(a) != lift(b) for a, b in zip(arr, wv)]
+    r, mm = core.check(base + [z3.Or(*dis)], timeout_ms=120000)
+    recs.append(q(tag + ':forms-agree', r))
+    if r == 'sat':
+        recs.append(cex('C17:integrate-normalized:forms', 'normalised integration differs between the plain array, as_frame=True and spectrum()/timeseries()', pl, name=tag + ':forms-agree'))
+    # and they are (v - mean) / std
+    dis = [lift(a) * sref != x - m for a, x in zip(arr, v)]
+    r, mm = core.check(base + [z3.Or(*dis)], timeout_ms=120000)
+    recs.append(q(tag + ':value', r))
+    if r == 'sat':
+        recs.append(cex('C17:integrate-normalized:value', 'normalised integration is not (v - mean(v)) / std(v)', pl, name=tag + ':value'))
+    recs.append(q(tag + ':twin', core.check(base + [lift(arr[0]) != 0], timeout_ms=60000)[0], expect='sat'))
+    return recs
+
+
+def replay_integrate_normalized(p):
+    import setigen as stg
+    rng = np.random.default_rng(2)
+    fr = stg.Frame(fchans=max(p['Fc'], 6), tchans=max(p['T'], 5), df=2.0, dt=4.0, fch1=4096.0, seed=0)
+    fr.data = rng.normal(10, 2, fr.shape)
+    bad = []
+    for axis, ax in (('t', 0), ('f', 1), (0, 0), (1, 1)):
+        for mode in ('mean', 'sum'):
+            v = fr.data.mean(axis=ax) if mode == 'mean' else fr.data.sum(axis=ax)
+            want = (v - v.mean()) / v.std()
+            a = stg.integrate(fr, axis=axis, mode=mode, normalize=True)
+            o = stg.integrate(fr, axis=axis, mode=mode, normalize=True, as_frame=True)
+            w = (stg.timeseries if ax == 1 else stg.spectrum)(fr, mode=mode, normalize=True)
+            for nm, got in (('array', a), ('as_frame', np.asarray(o.data).ravel()), ('spectrum/timeseries', np.asarray(w.data).ravel())):
+                if got.shape != want.shape or not np.allclose(got, want, rtol=1e-9, atol=1e-9):
+                    bad.append(f"axis={axis} mode={mode} {nm}: {got[:3]} != (v-mean)/std {want[:3]}")
+    return bool(bad), '; '.join(bad[:2]) or 'normalised integration ok'
+
+
 # ------------------------------------------------------------------ concrete oracles
 def _parent(p, rng):
     import setigen as stg
@@ -366,7 +438,7 @@ def replay_integrate(p):
     return bool(bad), '; '.join(bad) or 'integrate ok'
 
 
-REPLAYS = {'slice': replay_slice, 'dedrift': replay_dedrift, 'integrate': replay_integrate}
+REPLAYS = {'slice': replay_slice, 'dedrift': replay_dedrift, 'integrate': replay_integrate, 'integrate_normalized': replay_integrate_normalized}
 
 
 def main():
@@ -375,7 +447,7 @@ def main():
                     'Frame.check_waterfall', 'Spectrum.__init__', 'TimeSeries.__init__', 'Frame.__init__']
     ck.files = ['setigen/slice.py', 'setigen/dedrift.py', 'setigen/integrate.py', 'setigen/spectrum.py', 'setigen/timeseries.py', 'setigen/frame.py']
     ck.stubs = ['sigma_clip -> identity (normalisation outside the claim)']
-    ck.assumptions = ['slice bounds 0 <= l < r <= fchans', 'de-drift on concrete dyadic geometries with the drift rate an arbitrary real up to one channel beyond the frame limit', 'exact reals', 'normalize=True outside']
+    ck.assumptions = ['slice bounds 0 <= l < r <= fchans', 'de-drift on concrete dyadic geometries with the drift rate an arbitrary real up to one channel beyond the frame limit', 'exact reals', 'normalize=True: sigma clipping is the identity stub; claimed for vectors of non-zero variance on a 2x3 frame']
     shapes = [(1, 1), (2, 4), (3, 5)] if not ck.thorough else [(1, 1), (2, 4), (3, 5), (4, 8), (3, 6)]
     ck.bounds = dict(shapes=shapes, geometries='symbolic (slice, integrate) / dyadic g1,g2 (de-drift)')
     jobs = []
@@ -387,6 +459,9 @@ def main():
                 for sign in (1, -1):
                     jobs.append(('job_dedrift', (T, Fc, asc, geom, sign, False)))
             jobs.append(('job_dedrift', (T, Fc, asc, 'g1', 1, True)))
+    for axis in ('t', 'f'):
+        for mode in ('mean', 'sum'):
+            jobs.append(('job_integrate_normalized', (2, 3, axis, mode)))
     ck.run_jobs('props.C17', jobs, timeout_s=1500)
     ck.finish()
 
